@@ -25,6 +25,31 @@ CHECKS = {
             'to a depth bound.',
             'Exhaustive relative to the pool; timestep dropped from the state hash (all windows default).',
             'DESIGN.md section 4 C01'),
+    'C02': ('hbfs', 'exhaustive sweep of the (start,end,frequency,registration time) product x every timestep, plus '
+                    'explicit-state BFS over add/execute(n)/execute_systems/rejected-n histories with a twin-world '
+                    'differential for execute(n)',
+            'Every window in the declared integer ranges (negative start, end<start, default end, frequency 1..5/7, '
+            'late registration) is stepped through every timestep to the horizon on the real scheduler; the BFS leg '
+            'visits all reachable states of a 5-window pool up to the horizon and executes every advance request and '
+            'every rejected n there.',
+            'Exhaustive within the integer ranges and horizon; window attributes not mutated after construction.',
+            'DESIGN.md section 4 C02'),
+    'C03': ('hbfs', 'explicit-state BFS over join/leave/attach/detach/explicit-register histories per world kind, '
+                    'lockstep with a strict reference and an as-is pool model (known findings F1,F2,F3,F6)',
+            'All reachable states of the trigger-free region are visited per world kind and every operation is compared '
+            'with the strict reference; behind a listed trigger the search continues to a stated depth and every '
+            'divergence must match the as-is model exactly, otherwise it is a violation; two models alive at once in '
+            'a depth-bounded product.',
+            'Exhaustive relative to 3 agent objects (one colliding id), 2 component types, 5 world kinds; the '
+            'tainted region is bounded (2/3 operations behind the first trigger).',
+            'DESIGN.md section 4 C03'),
+    'C04': ('hbfs', 'explicit-state BFS over add/remove histories to the fixpoint with an exhaustive fault menu '
+                    '(duplicate id, unknown id, out-of-range placement per axis and side) executed in every state',
+            'Every reachable residency state per world kind is visited; in each state every rejected operation is '
+            'executed on the real code and must raise the documented error and leave a generic full-field snapshot '
+            'of model, environment, agents, components and pools bit-identical.',
+            'Exhaustive relative to 4 pool agents (one colliding id) + a probe agent and the listed worlds.',
+            'DESIGN.md section 4 C04'),
 }
 
 PENDING = {}
